@@ -103,7 +103,11 @@ def process(recs: List[Dict[str, Any]]) -> Dict[str, Any]:
                                    "nservices": len(rec["services"]), **detail}))
     for rec in recs:
         names = sorted(rec["services"])
-        layer = build_layer(names, list(rec["gnrs"]))
+        try:
+            layer = build_layer(names, list(rec["gnrs"]))
+        except Exception as e:  # noqa: BLE001
+            fail("layer_does_not_load", rec, {"exc": f"{type(e).__name__}: {str(e)[:120]}"})
+            continue
         st["layers"] += 1
         for row in rec["table"]:
             m = bytes(row["m"])
